@@ -204,9 +204,13 @@ impl Caret {
     fn check_scrolling_on_caret_up(&mut self, buf: &mut Buffer, current_layer: usize, force: bool) {
         if buf.needs_scrolling() || force {
             let last = buf.get_first_editable_line();
-            while self.pos.y < last {
-                buf.scroll_down(current_layer);
-                self.pos.y += 1;
+            if self.pos.y < last {
+                // scrolling further than one screen height leaves the same blank region
+                let count = last.saturating_sub(self.pos.y).min(buf.terminal_state.get_height());
+                for _ in 0..count {
+                    buf.scroll_down(current_layer);
+                }
+                self.pos.y = last;
             }
         }
     }
